@@ -3,6 +3,7 @@ package checks
 import (
 	"bytes"
 	"crypto/ecdsa"
+	"crypto/rsa"
 	"fmt"
 	"math/big"
 
@@ -315,6 +316,28 @@ func runC03(c *Ctx) {
 				put("transplant-context-CounterSignature", refcose.Structure("CounterSignature", f.Layer.protContent, []byte{}, true, base.ext, f.Payload, nil))
 				put("transplant-context-CounterSignature0", refcose.Structure("CounterSignature0", f.Layer.protContent, nil, false, base.ext, f.Payload, nil))
 				put("resign-same-message", refcose.Sign1Structure(f.Layer.protContent, base.ext, f.Payload))
+				// RSASSA-PSS with a salt length other than the hash length is not a valid COSE signature (RFC 8230)
+				if rk, ok := k.Priv.(*rsa.PrivateKey); ok {
+					h := refcrypto.HashOf(int64(k.Alg))
+					dg := refcrypto.Digest(h, refcose.Sign1Structure(f.Layer.protContent, base.ext, f.Payload))
+					for _, salt := range []int{0, 1, 20, h.Size() - 1, h.Size() + 1, rsa.PSSSaltLengthAuto} {
+						sig, err := rsa.SignPSS(gen.Entropy, rk, h, dg, &rsa.PSSOptions{SaltLength: salt})
+						if err != nil {
+							continue
+						}
+						t, err := gen.ParseTree(base.wire)
+						if err != nil {
+							continue
+						}
+						a := t.Root
+						if a.Major == refcbor.Tag {
+							a = a.Kids[0]
+						}
+						a.Kids[3].Str = sig
+						a.Kids[3].Width = 0
+						try(fmt.Sprintf("pss-salt-length-%d", salt), t.Seal(), base.ext, base.keys, base.verifiers)
+					}
+				}
 			}
 		}
 		if base.kind == "countersig-standalone" {
